@@ -428,7 +428,7 @@ type schedFixed struct {
 }
 
 func runL1S(seed int64, n int, dir string) error {
-	g := &gen{rand.New(rand.NewSource(seed))}
+	g := &gen{r: rand.New(rand.NewSource(seed))}
 	cf, err := os.Create(dir + "/cases.txt")
 	if err != nil {
 		return err
@@ -505,7 +505,7 @@ func replaySched(r *tr, id int) (string, string) {
 	if len(f.sched) >= tail {
 		f.sched = f.sched[:len(f.sched)-tail]
 	}
-	g := &gen{rand.New(rand.NewSource(int64(id)))}
+	g := &gen{r: rand.New(rand.NewSource(int64(id)))}
 	return runSchedCase(g, id, map[string]int{}, f)
 }
 
